@@ -127,7 +127,7 @@ def c08():
         "props_file": "Props/C08.v",
         "theorems": ["C08_wellformed", "C08_wellformed_labels", "C08_meaning", "C08_every_insertion",
                      "C08_results_from_leaves", "C08_no_wrap_update", "C08_width_matters"],
-        "suites": [suite_hist.suite_seq_refine("C08"), suite_hist.suite_tree_walk, suite_hist.suite_boundary,
+        "suites": [suite_hist.suite_seq_refine("C08"), suite_hist.suite_tiny_long("C08"), suite_hist.suite_tree_walk, suite_hist.suite_boundary,
                    suite_hist.suite_exhaustive, suite_sub.suite_sub],
         "search": suite_hist.search_hist("C08"),
         "replay": suite_hist.replay_hist("C08"),
@@ -153,6 +153,8 @@ def c09():
         for kind, d in failures:
             if isinstance(d, dict) and "what" in d and "Model/" not in d["what"] and "case" in d:
                 return {"violation": d["what"], "case": d["case"]}
+            if isinstance(d, dict) and "big_cluster_seed" in d:
+                return {"violation": d["what"], **{k: v for k, v in d.items() if k not in ("what", "suite")}}
         rr = suite_mr.suite_mr_files(seed + 1, "quick")
         for d in rr.bad:
             if "Model/" not in d["what"] and "separated" in d["what"]:
@@ -161,7 +163,7 @@ def c09():
 
     def replay(payload):
         fi = payload.get("failing_input") or {}
-        if "case" in fi:
+        if "case" in fi or "big_cluster_seed" in fi:
             return suite_mr.replay_mr("C09")(payload)
         return suite_hist.replay_hist("C09")(payload)
     return {
@@ -171,7 +173,7 @@ def c09():
                      "C09_history", "C09_history_keep", "C09_refine_side_condition_needed"],
         "model_files": ["Model/Obs.v", "Model/Multiround.v", "Gen/GMr.v", "Proofs/GenTieMr.v"],
         "suites": [suite_hist.suite_hist_api, suite_hist.suite_boundary, suite_mr.suite_mr_files,
-                   suite_hist.suite_seq_refine("C09")],
+                   suite_mr.suite_mr_big, suite_hist.suite_seq_refine("C09")],
         "search": search,
         "replay": replay,
         "level": "proof",
@@ -486,7 +488,7 @@ def c05():
                      "C05_any_directory", "C05_nonvacuous", "C05_centroids_are_majority",
                      "C05_source_tie_names", "C05_source_tie_globs"],
         "model_files": ["Model/Multiround.v", "Gen/GMr.v", "Proofs/GenTieMr.v"],
-        "suites": [suite_mr.suite_mr_files],
+        "suites": [suite_mr.suite_mr_files, suite_mr.suite_mr_big],
         "search": suite_mr.search_mr("C05"),
         "replay": suite_mr.replay_mr("C05"),
         "level": "proof",
